@@ -196,6 +196,19 @@ func reservedDomain() []reservedCase {
 			}
 		}
 	}
+	// every last path element of 1-3 pieces over an alphabet of character classes (punctuation, underscore, digits,
+	// ASCII and non-ASCII letters and digits, upper case): what is guessed from it must be an identifier whatever
+	// the order in which the classes meet
+	pieces := []string{"-", ".", "_", "1", "a", "Z", "é", "日", "٣", "~"}
+	for _, a := range pieces {
+		out = append(out, reservedCase{a + "q", "last", "", 0}, reservedCase{a, "last", "pkg", 1})
+		for _, b := range pieces {
+			out = append(out, reservedCase{a + b, "last", "", 0}, reservedCase{a + b, "last", "pkg", 1})
+			for _, c := range pieces {
+				out = append(out, reservedCase{a + b + c, "last", "", 1}, reservedCase{a + b + c + "x", "last", "pkg", 0})
+			}
+		}
+	}
 	kw := map[string]bool{}
 	for _, k := range oracle.Keywords() {
 		kw[k] = true
@@ -221,7 +234,7 @@ func runScen(r *mon.Run, prop string) {
 	rule := map[string]string{
 		"C03": "random import scenarios (constructor, prefix, ordered hint calls, 1-12 paths with ground-truth names, references in 12 syntactic contexts); non-trivial = rendered file has >=2 import specs; distinct by scenario text",
 		"C04": "random import scenarios biased to unused hints, big ImportNames tables, Anon sets and references inside contexts that render nothing; non-trivial = at least one unused hint / null-context reference / Anon / big table",
-		"C05": "exhaustive: every keyword and universe identifier x {last path element, ImportName, ImportAlias} x prefix {off,on} x 0-3 competing paths; plus random scenarios biased to colliding bases and reserved candidates; non-trivial = two rendered paths want the same name or a candidate is reserved",
+		"C05": "exhaustive: every keyword and universe identifier x {last path element, ImportName, ImportAlias} x prefix {off,on} x 0-3 competing paths, and every last path element of 1-3 pieces over 10 character classes (punctuation, underscore, digits, upper/lower/non-ASCII letters, non-ASCII digits); plus random scenarios biased to colliding bases and reserved candidates; non-trivial = two rendered paths want the same name or a candidate is reserved",
 		"C06": "random import scenarios biased to local paths, near-misses of the local path, dot imports and prefix; non-trivial = a rendered dot-imported path or a reference to the local package",
 	}[prop]
 	r.SetRule(rule)
@@ -241,7 +254,7 @@ func runScen(r *mon.Run, prop string) {
 			r.CountMap("decision.", s.Decisions(o))
 			r.Count("exhaustive_reserved_cases", 1)
 		})
-		r.Put("exhaustive_subdomain", fmt.Sprintf("%d keywords+universe identifiers x style x prefix x competing = %d cases (complete)", len(scen.ReservedWords()), len(dom)))
+		r.Put("exhaustive_subdomain", fmt.Sprintf("%d keywords+universe identifiers x style x prefix x competing, numbered fall-backs, and all last elements of 1-3 pieces over 10 character classes = %d cases (complete)", len(scen.ReservedWords()), len(dom)))
 		r.Sample(map[string]interface{}{"reserved_case": dom[len(dom)/2], "scenario": dom[len(dom)/2].scenario().String()})
 	}
 	mon.Parallel(total, func(i int) { scenCase(r, prop, int64(i)) })
